@@ -9,7 +9,9 @@ This file contains no facts about the Rust sources.  It states, by hand,
   (`fieldTypeSpec`) so that "zeroized" has a definite meaning,
 * which heap buffers of the constant-time multiscalar multiplication and of batch scalar inversion hold
   data derived from secret scalars and must therefore be wiped before they are freed (`wipeObligations`),
-  and which heap buffers of those functions are public and why (`publicVecs`).
+* a hand classification of **every** heap allocation of the non-test code of the three crates (`heapSpec`:
+  secret-and-wiped, or not secret-derived with the reason) and the list of functions on the constant-time call
+  paths (`ctPathFns`).
 
 The facts regenerated from the sources live in `Dalek.Gen.Inventory`; the theorems that confront the two
 are in `Dalek/Props/C14/Inventory.lean`.  (Mathlib-free.)
@@ -168,25 +170,191 @@ def wipeObligations : List WipeObligation := [
   ⟨"curve25519-dalek/src/scalar.rs", "Scalar::batch_invert", "scratch",
     "prefix products of the secret scalars (Montgomery form)"⟩]
 
-/-- Heap buffers of the same functions that hold only public data: `(file, func, vec, reason)`.
-`lookup_tables` are the multiples P, 2P, …, 8P of the input *points*; in the constant-time multiscalar
-multiplication the points are public inputs (only the scalars are secret; the table is read with a
-constant-time `select`). -/
-def publicVecs : List (String × String × String × String) := [
-  ("curve25519-dalek/src/backend/serial/scalar_mul/straus.rs", "<Straus as MultiscalarMul>::multiscalar_mul",
-    "lookup_tables", "multiples of the public input points"),
-  ("curve25519-dalek/src/backend/vector/scalar_mul/straus.rs", "spec::<Straus as MultiscalarMul>::multiscalar_mul",
-    "lookup_tables", "multiples of the public input points")]
+/-- Classification of a heap allocation. -/
+inductive HeapClass where
+  /-- holds data derived from secret scalars; MUST be wiped before it is freed -/
+  | secretWiped
+  /-- multiples of the input points of a constant-time multiscalar multiplication (points are public inputs) -/
+  | publicPoints
+  /-- allocation inside an API that is variable-time by contract (all its inputs are public) -/
+  | vartimePublic
+  /-- coordinates / field elements of points in an API that takes no scalars; not wiped (see the reason) -/
+  | pointData
+  /-- the value returned to the caller -/
+  | publicOutput
+  /-- signature-verification data (public signatures, keys, messages and values derived from them) -/
+  | publicTranscript
+  deriving DecidableEq, Repr
 
-/-- Functions in the inventoried files that are *variable-time by contract* (their scalars are public) and the
-field-element batch inversion (operates on point coordinates inside `double_and_compress_batch`, not on
-scalars): no wiping obligation.  Listed so that the coverage theorem accounts for every inventoried function. -/
-def noObligationFuncs : List (String × String × String) := [
-  ("curve25519-dalek/src/backend/serial/scalar_mul/straus.rs",
-    "<Straus as VartimeMultiscalarMul>::optional_multiscalar_mul", "variable-time API: scalars are public"),
-  ("curve25519-dalek/src/backend/vector/scalar_mul/straus.rs",
-    "spec::<Straus as VartimeMultiscalarMul>::optional_multiscalar_mul", "variable-time API: scalars are public"),
-  ("curve25519-dalek/src/field.rs", "FieldElement::batch_invert",
-    "field elements of (public) points; not part of property C14 (batch *scalar* inversion)")]
+/-- One heap-allocating local (or un-named allocation expression `<expr> …`) of one function. -/
+structure HeapLocal where
+  file : String
+  func : String
+  name : String
+  cls : HeapClass
+  why : String
+
+/-- **Every** heap-allocating local of **every** non-test function of the three crates, classified by hand.
+The inventory (`Dalek.Gen.Inventory.wipeFacts`) is regenerated from the sources; `ct_vecs_accounted` states that
+this list and the inventory agree exactly, so any new `Vec` / `vec![]` / `.collect()` / `.to_vec()` / `Box` /
+`String` … anywhere in the non-test code (in particular in the constant-time operations `ctPathFns`) must be
+classified here before the property builds again. -/
+def heapSpec : List HeapLocal := [
+  ⟨"curve25519-dalek/src/backend/serial/scalar_mul/pippenger.rs", "<Pippenger as VartimeMultiscalarMul>::optional_multiscalar_mul",
+    "scalars_points", .vartimePublic,
+    "variable-time API (scalars are public by contract): radix-2^w digits paired with the points"⟩,
+  ⟨"curve25519-dalek/src/backend/serial/scalar_mul/pippenger.rs", "<Pippenger as VartimeMultiscalarMul>::optional_multiscalar_mul",
+    "buckets", .vartimePublic,
+    "variable-time API: bucket accumulators"⟩,
+  ⟨"curve25519-dalek/src/backend/serial/scalar_mul/precomputed_straus.rs", "<VartimePrecomputedStraus as VartimePrecomputedMultiscalarMul>::new",
+    "<expr> static_lookup_tables : static_points.into_iter().map(| P | NafLookupTable8::< AffineNielsPoint >::from(P.borrow())).c...", .vartimePublic,
+    "variable-time precomputation: odd multiples of the (public) static points, owned by the returned struct"⟩,
+  ⟨"curve25519-dalek/src/backend/serial/scalar_mul/precomputed_straus.rs", "<VartimePrecomputedStraus as VartimePrecomputedMultiscalarMul>::optional_mixed_multiscalar_mul",
+    "static_nafs", .vartimePublic,
+    "variable-time API: NAFs of public scalars"⟩,
+  ⟨"curve25519-dalek/src/backend/serial/scalar_mul/precomputed_straus.rs", "<VartimePrecomputedStraus as VartimePrecomputedMultiscalarMul>::optional_mixed_multiscalar_mul",
+    "dynamic_nafs", .vartimePublic,
+    "variable-time API: NAFs of public scalars"⟩,
+  ⟨"curve25519-dalek/src/backend/serial/scalar_mul/precomputed_straus.rs", "<VartimePrecomputedStraus as VartimePrecomputedMultiscalarMul>::optional_mixed_multiscalar_mul",
+    "dynamic_lookup_tables", .vartimePublic,
+    "variable-time API: odd multiples of the public dynamic points"⟩,
+  ⟨"curve25519-dalek/src/backend/serial/scalar_mul/straus.rs", "<Straus as MultiscalarMul>::multiscalar_mul",
+    "lookup_tables", .publicPoints,
+    "multiples P, 2P, ..., 8P of the input points; in the constant-time multiscalar multiplication only the scalars are secret (the table is read with a constant-time select)"⟩,
+  ⟨"curve25519-dalek/src/backend/serial/scalar_mul/straus.rs", "<Straus as MultiscalarMul>::multiscalar_mul",
+    "scalar_digits", .secretWiped,
+    "radix-16 digits of the secret scalars"⟩,
+  ⟨"curve25519-dalek/src/backend/serial/scalar_mul/straus.rs", "<Straus as VartimeMultiscalarMul>::optional_multiscalar_mul",
+    "nafs", .vartimePublic,
+    "variable-time API: NAFs of public scalars"⟩,
+  ⟨"curve25519-dalek/src/backend/serial/scalar_mul/straus.rs", "<Straus as VartimeMultiscalarMul>::optional_multiscalar_mul",
+    "lookup_tables", .vartimePublic,
+    "variable-time API: odd multiples of the public points"⟩,
+  ⟨"curve25519-dalek/src/backend/vector/scalar_mul/pippenger.rs", "spec::<Pippenger as VartimeMultiscalarMul>::optional_multiscalar_mul",
+    "scalars_points", .vartimePublic,
+    "variable-time API (scalars are public by contract): radix-2^w digits paired with the points"⟩,
+  ⟨"curve25519-dalek/src/backend/vector/scalar_mul/pippenger.rs", "spec::<Pippenger as VartimeMultiscalarMul>::optional_multiscalar_mul",
+    "buckets", .vartimePublic,
+    "variable-time API: bucket accumulators"⟩,
+  ⟨"curve25519-dalek/src/backend/vector/scalar_mul/precomputed_straus.rs", "spec::<VartimePrecomputedStraus as VartimePrecomputedMultiscalarMul>::new",
+    "<expr> static_lookup_tables : static_points.into_iter().map(| P | NafLookupTable8::< CachedPoint >::from(P.borrow())).collect()", .vartimePublic,
+    "variable-time precomputation: odd multiples of the (public) static points, owned by the returned struct"⟩,
+  ⟨"curve25519-dalek/src/backend/vector/scalar_mul/precomputed_straus.rs", "spec::<VartimePrecomputedStraus as VartimePrecomputedMultiscalarMul>::optional_mixed_multiscalar_mul",
+    "static_nafs", .vartimePublic,
+    "variable-time API: NAFs of public scalars"⟩,
+  ⟨"curve25519-dalek/src/backend/vector/scalar_mul/precomputed_straus.rs", "spec::<VartimePrecomputedStraus as VartimePrecomputedMultiscalarMul>::optional_mixed_multiscalar_mul",
+    "dynamic_nafs", .vartimePublic,
+    "variable-time API: NAFs of public scalars"⟩,
+  ⟨"curve25519-dalek/src/backend/vector/scalar_mul/precomputed_straus.rs", "spec::<VartimePrecomputedStraus as VartimePrecomputedMultiscalarMul>::optional_mixed_multiscalar_mul",
+    "dynamic_lookup_tables", .vartimePublic,
+    "variable-time API: odd multiples of the public dynamic points"⟩,
+  ⟨"curve25519-dalek/src/backend/vector/scalar_mul/straus.rs", "spec::<Straus as MultiscalarMul>::multiscalar_mul",
+    "lookup_tables", .publicPoints,
+    "multiples P, 2P, ..., 8P of the input points; in the constant-time multiscalar multiplication only the scalars are secret (the table is read with a constant-time select)"⟩,
+  ⟨"curve25519-dalek/src/backend/vector/scalar_mul/straus.rs", "spec::<Straus as MultiscalarMul>::multiscalar_mul",
+    "scalar_digits_vec", .secretWiped,
+    "radix-16 digits of the secret scalars"⟩,
+  ⟨"curve25519-dalek/src/backend/vector/scalar_mul/straus.rs", "spec::<Straus as VartimeMultiscalarMul>::optional_multiscalar_mul",
+    "nafs", .vartimePublic,
+    "variable-time API: NAFs of public scalars"⟩,
+  ⟨"curve25519-dalek/src/backend/vector/scalar_mul/straus.rs", "spec::<Straus as VartimeMultiscalarMul>::optional_multiscalar_mul",
+    "lookup_tables", .vartimePublic,
+    "variable-time API: odd multiples of the public points"⟩,
+  ⟨"curve25519-dalek/src/field.rs", "FieldElement::batch_invert",
+    "scratch", .pointData,
+    "prefix products of field elements; its only caller is RistrettoPoint::double_and_compress_batch (point coordinates); not wiped; outside the statement of C14 (batch *scalar* inversion)"⟩,
+  ⟨"curve25519-dalek/src/ristretto.rs", "RistrettoPoint::double_and_compress_batch",
+    "states", .pointData,
+    "per-point intermediate field elements (e, f, g, h, eg, fh) computed from the coordinates of the input points; no scalar is involved; NOT wiped: if a caller regards its points as secret their coordinates survive in freed heap memory"⟩,
+  ⟨"curve25519-dalek/src/ristretto.rs", "RistrettoPoint::double_and_compress_batch",
+    "invs", .pointData,
+    "the products eg * fh of the same point coordinates and, after batch_invert, their inverses; no scalar is involved; NOT wiped"⟩,
+  ⟨"curve25519-dalek/src/ristretto.rs", "RistrettoPoint::double_and_compress_batch",
+    "<expr> states.iter().zip(invs.iter()).map(| (state, inv) : (&BatchCompressState, &FieldElement) | { let Zinv = &state.eg * i...", .publicOutput,
+    "the returned Vec<CompressedRistretto>: the function result, owned by the caller"⟩,
+  ⟨"curve25519-dalek/src/scalar.rs", "Scalar::batch_invert",
+    "scratch", .secretWiped,
+    "prefix products of the secret scalars (Montgomery form)"⟩,
+  ⟨"ed25519-dalek/src/batch.rs", "verify_batch",
+    "hrams", .publicTranscript,
+    "verification only: SHA-512(R || A || M) of public signatures, keys and messages, then the same values as scalars"⟩,
+  ⟨"ed25519-dalek/src/batch.rs", "verify_batch",
+    "signatures", .publicTranscript,
+    "verification only: the parsed (public) signatures"⟩,
+  ⟨"ed25519-dalek/src/batch.rs", "verify_batch",
+    "zs", .publicTranscript,
+    "verification only: 128-bit batch coefficients derived deterministically from the public transcript"⟩]
+
+/-- The functions on the call path of the operations that properties C10 / C14 name as constant-time
+(`(file, qualified fn name)`; fns generated by `macro_rules!` appear as `macro_rules!name::fn`).  The theorem
+`ct_path_scanned` states that each of them was seen by the inventory; together with `ct_vecs_accounted` this
+means: apart from the allocations listed in `heapSpec`, none of them contains a heap-allocation marker. -/
+def ctPathFns : List (String × String) := [
+  ("curve25519-dalek/src/edwards.rs", "<EdwardsPoint as MultiscalarMul>::multiscalar_mul"),
+  ("curve25519-dalek/src/edwards.rs", "<&EdwardsPoint as Mul<Scalar>>::mul"),
+  ("curve25519-dalek/src/edwards.rs", "<&Scalar as Mul<EdwardsPoint>>::mul"),
+  ("curve25519-dalek/src/edwards.rs", "EdwardsPoint::mul_base"),
+  ("curve25519-dalek/src/edwards.rs", "EdwardsPoint::mul_clamped"),
+  ("curve25519-dalek/src/edwards.rs", "EdwardsPoint::mul_base_clamped"),
+  ("curve25519-dalek/src/edwards.rs", "EdwardsPoint::compress"),
+  ("curve25519-dalek/src/edwards.rs", "macro_rules!impl_basepoint_table::create"),
+  ("curve25519-dalek/src/edwards.rs", "macro_rules!impl_basepoint_table::mul_base"),
+  ("curve25519-dalek/src/edwards.rs", "macro_rules!impl_basepoint_table::mul"),
+  ("curve25519-dalek/src/edwards.rs", "EdwardsPoint::mul_by_pow_2"),
+  ("curve25519-dalek/src/edwards.rs", "EdwardsPoint::mul_by_cofactor"),
+  ("curve25519-dalek/src/edwards.rs", "EdwardsPoint::to_montgomery"),
+  ("curve25519-dalek/src/ristretto.rs", "<RistrettoPoint as MultiscalarMul>::multiscalar_mul"),
+  ("curve25519-dalek/src/ristretto.rs", "<&RistrettoPoint as Mul<Scalar>>::mul"),
+  ("curve25519-dalek/src/ristretto.rs", "<&Scalar as Mul<RistrettoPoint>>::mul"),
+  ("curve25519-dalek/src/ristretto.rs", "RistrettoPoint::mul_base"),
+  ("curve25519-dalek/src/ristretto.rs", "<&RistrettoBasepointTable as Mul<Scalar>>::mul"),
+  ("curve25519-dalek/src/ristretto.rs", "RistrettoPoint::compress"),
+  ("curve25519-dalek/src/ristretto.rs", "RistrettoPoint::from_uniform_bytes"),
+  ("curve25519-dalek/src/ristretto.rs", "RistrettoPoint::elligator_ristretto_flavor"),
+  ("curve25519-dalek/src/ristretto.rs", "RistrettoPoint::double_and_compress_batch"),
+  ("curve25519-dalek/src/backend/mod.rs", "straus_multiscalar_mul"),
+  ("curve25519-dalek/src/backend/mod.rs", "variable_base_mul"),
+  ("curve25519-dalek/src/backend/serial/scalar_mul/variable_base.rs", "mul"),
+  ("curve25519-dalek/src/backend/serial/scalar_mul/straus.rs", "<Straus as MultiscalarMul>::multiscalar_mul"),
+  ("curve25519-dalek/src/backend/vector/scalar_mul/variable_base.rs", "spec::mul"),
+  ("curve25519-dalek/src/backend/vector/scalar_mul/straus.rs", "spec::<Straus as MultiscalarMul>::multiscalar_mul"),
+  ("curve25519-dalek/src/montgomery.rs", "MontgomeryPoint::mul_bits_be"),
+  ("curve25519-dalek/src/montgomery.rs", "<&MontgomeryPoint as Mul<Scalar>>::mul"),
+  ("curve25519-dalek/src/montgomery.rs", "<&Scalar as Mul<MontgomeryPoint>>::mul"),
+  ("curve25519-dalek/src/montgomery.rs", "MontgomeryPoint::mul_clamped"),
+  ("curve25519-dalek/src/montgomery.rs", "MontgomeryPoint::mul_base"),
+  ("curve25519-dalek/src/montgomery.rs", "MontgomeryPoint::mul_base_clamped"),
+  ("curve25519-dalek/src/scalar.rs", "Scalar::batch_invert"),
+  ("curve25519-dalek/src/scalar.rs", "Scalar::invert"),
+  ("curve25519-dalek/src/scalar.rs", "UnpackedScalar::montgomery_invert"),
+  ("curve25519-dalek/src/scalar.rs", "UnpackedScalar::invert"),
+  ("curve25519-dalek/src/scalar.rs", "<&Scalar as Mul<Scalar>>::mul"),
+  ("curve25519-dalek/src/scalar.rs", "<&Scalar as Add<Scalar>>::add"),
+  ("curve25519-dalek/src/scalar.rs", "<&Scalar as Sub<Scalar>>::sub"),
+  ("curve25519-dalek/src/scalar.rs", "<&Scalar as Neg>::neg"),
+  ("curve25519-dalek/src/scalar.rs", "Scalar::as_radix_16"),
+  ("curve25519-dalek/src/scalar.rs", "Scalar::as_radix_2w"),
+  ("curve25519-dalek/src/scalar.rs", "Scalar::from_bytes_mod_order"),
+  ("curve25519-dalek/src/scalar.rs", "Scalar::from_bytes_mod_order_wide"),
+  ("curve25519-dalek/src/scalar.rs", "clamp_integer"),
+  ("curve25519-dalek/src/window.rs", "macro_rules!impl_lookup_table::select"),
+  ("curve25519-dalek/src/window.rs", "macro_rules!impl_lookup_table::from"),
+  ("ed25519-dalek/src/signing.rs", "SigningKey::from_bytes"),
+  ("ed25519-dalek/src/signing.rs", "<ExpandedSecretKey as From<SecretKey>>::from"),
+  ("ed25519-dalek/src/signing.rs", "ExpandedSecretKey::raw_sign"),
+  ("ed25519-dalek/src/signing.rs", "ExpandedSecretKey::raw_sign_prehashed"),
+  ("ed25519-dalek/src/signing.rs", "SigningKey::to_scalar_bytes"),
+  ("ed25519-dalek/src/signing.rs", "SigningKey::to_scalar"),
+  ("ed25519-dalek/src/hazmat.rs", "ExpandedSecretKey::from_bytes"),
+  ("ed25519-dalek/src/hazmat.rs", "ExpandedSecretKey::from_slice"),
+  ("ed25519-dalek/src/hazmat.rs", "raw_sign"),
+  ("ed25519-dalek/src/hazmat.rs", "raw_sign_prehashed"),
+  ("x25519-dalek/src/x25519.rs", "EphemeralSecret::diffie_hellman"),
+  ("x25519-dalek/src/x25519.rs", "ReusableSecret::diffie_hellman"),
+  ("x25519-dalek/src/x25519.rs", "StaticSecret::diffie_hellman"),
+  ("x25519-dalek/src/x25519.rs", "x25519"),
+  ("x25519-dalek/src/x25519.rs", "<PublicKey as From<EphemeralSecret>>::from"),
+  ("x25519-dalek/src/x25519.rs", "<PublicKey as From<ReusableSecret>>::from"),
+  ("x25519-dalek/src/x25519.rs", "<PublicKey as From<StaticSecret>>::from")]
 
 end Dalek.Model.Secrets
